@@ -1327,6 +1327,109 @@ fn cut_sweep(w: &W, kind: Kind) -> Verdict {
     Ok(())
 }
 
+/// Every partition of one tiny file into read() chunks (2^(len-1) of them), and every partition
+/// of the writer's output into accepted write() chunks: the quantifier "forall partitions of the
+/// byte stream" decided exhaustively for files of up to 13 (thorough: 17) bytes.
+fn partitions(w: &W) -> Verdict {
+    let kind = if w.chance(1, 2) { Kind::Fastq } else { Kind::Fasta };
+    let limit = if crate::world::thorough() { 17 } else { 13 };
+    let crlf = w.chance(1, 2);
+    let mut recs: Vec<Rec> = vec![];
+    for _ in 0..2 {
+        let n = 1 + w.draw(2) as usize;
+        let seq = bytes_from(w, SEQ_CHARS, n as u64);
+        let qual: Vec<u8> = if kind == Kind::Fastq {
+            (0..n).map(|i| if i == 0 { *w.pick(b"I@+!~") } else { 33 + w.draw(94) as u8 }).collect()
+        } else {
+            vec![]
+        };
+        recs.push(Rec {
+            id: w.pick(&['a', '>', '@', '+', 'é']).to_string(),
+            desc: if w.chance(1, 3) { Some(w.pick(&['d', '>', '+']).to_string()) } else { None },
+            seq,
+            qual,
+        });
+    }
+    let mut splits: Vec<Vec<usize>> = recs.iter().map(|r| split_points(w, r.seq.len(), 2)).collect();
+    let mut img = layout(kind, &recs, &splits, crlf);
+    while img.bytes.len() > limit && !recs.is_empty() {
+        recs.pop();
+        splits.pop();
+        img = layout(kind, &recs, &splits, crlf);
+    }
+    if recs.is_empty() {
+        return Ok(());
+    }
+    w.probe("workload_nonempty");
+    w.probe("all_partitions_sweep");
+    w.fired("all_read_partitions");
+    if crlf {
+        w.fired("crlf");
+    }
+    let mut rc = gen_reader_cfg(w, true, false, None);
+    if rc.cap < 64 && rc.ctor != 2 && rc.ctor != 4 {
+        // a BufReader smaller than the file would hide most partitions behind its own refills;
+        // the small capacities have their own scenarios
+        rc.cap = 8192;
+    }
+    let data = Rc::new(img.bytes.clone());
+    let n = data.len();
+    if w.keep_trace {
+        w.note("format", json!(format!("{:?}", kind)));
+        w.note("workload", json!(recs.iter().map(|r| r.json()).collect::<Vec<_>>()));
+        w.note("stored_image", json!(show(&data)));
+        w.note("reader", rc.json());
+        w.note("sweep", json!(format!("all {} partitions of {} bytes into read() chunks, then all partitions of the writer output into write() chunks", 1u64 << (n - 1), n)));
+    }
+    for mask in 0..(1u64 << (n - 1)) {
+        rc.io = IoCfg {
+            chunk: crate::world::Chunk::Mask(mask),
+            eintr_pm: 0,
+            eio_pm: 0,
+        };
+        let (p, _) = consumer_phase(w, kind, &data, &rc);
+        if !p.ended {
+            return fail("C11.d-livelock", format!("partition mask {:#x}: iterator does not end", mask));
+        }
+        if rc.ctor >= 4 {
+            match &p.kind_reported {
+                None => {}
+                Some(Ok(k)) if *k == kind => {}
+                other => return fail("C11.c-sniff", format!("partition mask {:#x}: wrote {:?}, sniffer reported {:?}", mask, kind, other)),
+            }
+        }
+        if let Err(mut v) = check_roundtrip(w, "C11.b-layout", &p, &recs, false) {
+            v.message = format!("read partition mask {:#x} (bit i = a read ends at offset i+1) of {:?}: {}", mask, show(&data), v.message);
+            return Err(v);
+        }
+    }
+    // writer side: every partition of what the writer emits
+    let wcfg = WriterCfg {
+        ctor: w.draw(3) as u8,
+        cap: *w.pick(&[8192usize, 0, 1, 2, 3, 7]),
+        wrap: if kind == Kind::Fasta && w.chance(1, 2) { Some(1 + w.draw(2) as usize) } else { None },
+        api: w.draw(3) as u8,
+        flush: w.chance(1, 2),
+        flush_each: w.chance(1, 4),
+    };
+    let out_len = reference_bytes(kind, &wcfg, &recs).len();
+    if out_len >= 2 && out_len <= limit + 4 {
+        w.fired("all_write_partitions");
+        for mask in 0..(1u64 << (out_len - 1)) {
+            let wio = IoCfg {
+                chunk: crate::world::Chunk::Mask(mask),
+                eintr_pm: 0,
+                eio_pm: 0,
+            };
+            if let Err(mut v) = producer_phase(w, kind, &recs, &wcfg, wio) {
+                v.message = format!("write partition mask {:#x}: {}", mask, v.message);
+                return Err(v);
+            }
+        }
+    }
+    Ok(())
+}
+
 fn fa_cut_sweep(w: &W) -> Verdict {
     cut_sweep(w, Kind::Fasta)
 }
@@ -1428,13 +1531,14 @@ pub fn property() -> Property {
     Property {
         id: "C11",
         scenarios: vec![
-            Scenario { name: "fa-roundtrip", weight: 3, run: fa_roundtrip },
-            Scenario { name: "fq-roundtrip", weight: 3, run: fq_roundtrip },
-            Scenario { name: "fa-cut", weight: 2, run: fa_cut },
-            Scenario { name: "fq-cut", weight: 3, run: fq_cut },
-            Scenario { name: "fx-garbage", weight: 2, run: fx_garbage },
-            Scenario { name: "fa-cut-sweep", weight: 1, run: fa_cut_sweep },
-            Scenario { name: "fq-cut-sweep", weight: 1, run: fq_cut_sweep },
+            Scenario { name: "fa-roundtrip", weight: 12, run: fa_roundtrip },
+            Scenario { name: "fq-roundtrip", weight: 12, run: fq_roundtrip },
+            Scenario { name: "fa-cut", weight: 8, run: fa_cut },
+            Scenario { name: "fq-cut", weight: 12, run: fq_cut },
+            Scenario { name: "fx-garbage", weight: 8, run: fx_garbage },
+            Scenario { name: "fa-cut-sweep", weight: 4, run: fa_cut_sweep },
+            Scenario { name: "fq-cut-sweep", weight: 4, run: fq_cut_sweep },
+            Scenario { name: "fx-partitions", weight: 1, run: partitions },
         ],
         panic_clause: "C11.d-nopanic",
         livelock_clause: "C11.d-livelock",
@@ -1451,7 +1555,7 @@ pub fn property() -> Property {
             "header_split_across_reads", "cr_lf_in_different_reads", "utf8_char_split_across_reads", "first_byte_delivered_alone",
             "cut_at_record_boundary", "cut_inside_header", "cut_inside_plus_line", "cut_inside_quality", "cut_inside_sequence", "cut_inside_terminator",
             "quality_starts_with_at", "quality_starts_with_plus", "writer_buffer_smaller_than_field", "relayout_multiline_crlf",
-            "sniffer_used", "description_empty_or_ending_in_whitespace", "sniff_seek_stream_not_at_zero", "magic_size_run", "wrap_equals_magic_and_sequence_reaches_it", "large_regime", "many_records_regime", "huge_regime", "cut_sweep", "garbage_invalid_utf8", "garbage_rejected_with_error",
+            "sniffer_used", "description_empty_or_ending_in_whitespace", "sniff_seek_stream_not_at_zero", "magic_size_run", "wrap_equals_magic_and_sequence_reaches_it", "large_regime", "many_records_regime", "huge_regime", "cut_sweep", "all_partitions_sweep", "garbage_invalid_utf8", "garbage_rejected_with_error",
         ],
         quick_runs: 400_000,
         thorough_runs: 30_000_000,
